@@ -79,6 +79,17 @@ theorem validNext_ok :
     byte swaps, TECMP header validity, segment bits) all hold -/
 theorem rules_ok : Generated.rules.all (fun r => r.2 == 1) = true ∧ Generated.rules.length = 5 := by decide
 
+/-- the dispatch of `Packet::create`, translated from the current source text: every typed payload
+    type is validated by, and constructed as, its own class (seven cases, nothing else); unknown
+    types stay generic and rejected payloads are marked invalid — the shape `create`/`validatorOf`
+    of the model have (C03, C04) -/
+theorem create_dispatch_ok :
+    Generated.createDispatch =
+      [("can", "CanPayload", "CanPayload"), ("canFd", "CanFdPayload", "CanFdPayload"), ("lin", "LinPayload", "LinPayload"),
+       ("analog", "AnalogPayload", "AnalogPayload"), ("ethernet", "EthernetPayload", "EthernetPayload"),
+       ("cmStatMsg", "CaptureModulePayload", "CaptureModulePayload"), ("ifStatMsg", "InterfacePayload", "InterfacePayload")] ∧
+    Generated.createShape = (7, true, true) := by decide
+
 /-- the library objects have no mutable static storage besides the allow-list (C19) -/
 theorem no_shared_state : Generated.mutableStatics = [] := by decide
 
